@@ -162,14 +162,85 @@ theorem accessible_jobs (h : Hyp cfg rank) (hs : StartOK cfg (den cfg P rank) st
 
 end Run
 
+/-! ## same nesting -/
+inductive Shape where
+  | leaf
+  | node (l : List Shape)
+
+mutual
+def reqShape : Req → Shape
+  | .key _ => .leaf
+  | .list rs => .node (reqShapes rs)
+def reqShapes : List Req → List Shape
+  | [] => []
+  | r :: rs => reqShape r :: reqShapes rs
+end
+
+mutual
+def packedShape : Packed α → Shape
+  | .val _ => .leaf
+  | .tuple vs => .node (packedShapes vs)
+def packedShapes : List (Packed α) → List Shape
+  | [] => []
+  | v :: vs => packedShape v :: packedShapes vs
+end
+
+mutual
+/-- `nested_get` packs its result in exactly the nesting of the request (lists become tuples of the same length,
+recursively), whatever the lookup is -/
+theorem nestedGet_shape (look : Key → Option α) : ∀ (r : Req) (p : Packed α), nestedGet look r = some p →
+    packedShape p = reqShape r
+  | .key k, p, h => by
+    simp only [nestedGet] at h
+    cases hl : look k with
+    | none => rw [hl] at h; cases h
+    | some v => rw [hl] at h; cases h; rfl
+  | .list rs, p, h => by
+    simp only [nestedGet] at h
+    cases hl : nestedGetList look rs with
+    | none => rw [hl] at h; cases h
+    | some vs =>
+      rw [hl] at h
+      cases h
+      simp only [packedShape, reqShape]
+      rw [nestedGetList_shape look rs vs hl]
+theorem nestedGetList_shape (look : Key → Option α) : ∀ (rs : List Req) (vs : List (Packed α)),
+    nestedGetList look rs = some vs → packedShapes vs = reqShapes rs
+  | [], vs, h => by
+    simp only [nestedGetList] at h
+    cases h
+    rfl
+  | r :: rs, vs, h => by
+    simp only [nestedGetList] at h
+    cases h1 : nestedGet look r with
+    | none => rw [h1] at h; cases h
+    | some v =>
+      cases h2 : nestedGetList look rs with
+      | none => rw [h1, h2] at h; cases h
+      | some vs' =>
+        rw [h1, h2] at h
+        cases h
+        simp only [packedShapes, reqShapes]
+        rw [nestedGet_shape look r v h1, nestedGetList_shape look rs vs' h2]
+end
+
 /-! ## the full statement (no hypothesis on the start state) -/
 section Full
 variable {cfg : Cfg} {P : Params α} {rank : Key → Nat}
 
 /-- `start_state_from_dask` never raises on a closed graph and its state satisfies the invariant -/
 theorem start_ok (h : Hyp cfg rank) (hG : GraphOK cfg.g cfg.results) :
-    ∃ st0, startState cfg P = .ok st0 ∧ StartOK cfg (den cfg P rank) st0 :=
-  startState_ok cfg P (den_fixpoint cfg P rank h) hG
+    ∃ st0, startState cfg P = .ok st0 ∧ StartOK cfg (den cfg P rank) st0 := by
+  obtain ⟨st0, h1, h2, _⟩ := startState_ok cfg P (den_fixpoint cfg P rank h) hG
+  exact ⟨st0, h1, h2⟩
+
+/-- the keys visited by `start_state_from_dask` are exactly those reachable from the request -/
+theorem seen_iff_reachable (h : Hyp cfg rank) (hG : GraphOK cfg.g cfg.results) {st0 : State α}
+    (hst : startState cfg P = .ok st0) (k : Key) : st0.seen k ↔ Reach cfg.g cfg.results k := by
+  obtain ⟨st1, h1, _, h3⟩ := startState_ok cfg P (den_fixpoint cfg P rank h) hG
+  rw [hst] at h1
+  cases h1
+  exact h3 k
 
 theorem startOK_of_eq (h : Hyp cfg rank) (hG : GraphOK cfg.g cfg.results) {st0 : State α}
     (hst : startState cfg P = .ok st0) : StartOK cfg (den cfg P rank) st0 := by
